@@ -103,3 +103,20 @@ def local_calls(body, p, suffix=None, exact=None):
         elif suffix is not None and (n.endswith(suffix) or c.get("def", "").endswith(suffix)):
             out.append((bb, t))
     return out
+
+
+def value_guards(b, eb, bb, allow=None):
+    """the dominating *value* tests (true / false edges of comparisons; not enum-variant, Some/None or
+    loop edges) of block bb that `allow` does not accept, as readable strings: what a call or store
+    that has to happen "for every value" must not sit behind"""
+    from .. import paths
+    from ..expr import show
+    out = []
+    for g in paths.guards(b, bb, eb):
+        if g[0] in ("true", "false"):
+            pos, c = paths.bool_atoms(g)
+            if allow is not None and allow(pos, c):
+                continue
+            out.append(("" if pos else "not ") + show(c)[:90])
+    return out
+
